@@ -396,5 +396,6 @@ TmpHidden == crashed = "reopened" => \A nm \in Names : nm.k = "tmp" => dir[nm] =
 NoPanic == ~panic
 NoDoubleClose == ~dblClose
 Unaffected == \A i \in 1..Len(res) : res[i].r = "err" => res[i].blamed
+AffectedFail == \A i \in 1..Len(res) : res[i].blamed => res[i].r # "ok"
 TypeOK == /\ faults \in 0..MaxFaults /\ batchLock \in {0} \cup Writers /\ wbatch \in 0..MaxBat
 =============================================================================
